@@ -232,3 +232,175 @@ Example C01_demo_hyps :
   | _ => False
   end.
 Proof. vm_compute. repeat split; reflexivity. Qed.
+
+(* ====================== the observation oracle accepts the model ======================
+   The link between the two halves of the C01 check: whatever the model does on a history of
+   statements, flushes, table read-backs and page dumps, the oracles `spec_accepts` /
+   `spec_accepts_strict` of Spec/HistObs.v accept it (Proofs/OracleSound.v). With
+   OracleSound.agreement_implies_acceptance: an implementation that agrees with the model on a
+   history (MM = []) is accepted by the oracle on it (SM = []): no false alarm is possible on
+   conforming behaviour, and every SM verdict is tied to C01_refines through the model.
+   Hypotheses (booleans on the history): hist_shape (the events of the C01 check), hev_ok (iii),
+   frontier_ok (iv, after every statement), hev_stmt_shape (no INSERT without rows, no UPDATE /
+   DELETE on sys_pages / sys_schema) and reads_cover (a read-back does not return to a table that
+   the previous read-back skipped): without either of the last two the oracle REJECTS the model's
+   own behaviour (the oracle_needs_ examples of OracleSound.v). Strict mode needs strict_hev in addition: every
+   CREATE TABLE names a non-catalog table and passes check_catalog_rows. *)
+From Mkdb Require Import Proofs.OracleIds Proofs.OracleSound.
+
+Theorem C01_oracle_accepts_model : forall hevs,
+  hist_shape hevs = true ->
+  forallb hev_ok hevs = true ->
+  forallb hev_stmt_shape hevs = true ->
+  frontier_ok init_sys hevs = true ->
+  reads_cover [] [] [] hevs = true ->
+  spec_accepts (hevs, run_h init_sys hevs) = true.
+Proof. exact model_passes_oracle. Qed.
+Print Assumptions C01_oracle_accepts_model.
+
+Theorem C01_strict_oracle_accepts_model : forall hevs,
+  hist_shape hevs = true ->
+  forallb hev_ok hevs = true ->
+  forallb hev_stmt_shape hevs = true ->
+  frontier_ok init_sys hevs = true ->
+  reads_cover [] [] [] hevs = true ->
+  forallb strict_hev hevs = true ->
+  spec_accepts_strict (hevs, run_h init_sys hevs) = true.
+Proof. exact model_passes_oracle_strict. Qed.
+Print Assumptions C01_strict_oracle_accepts_model.
+
+(* in strict mode: a statement the model refuses is one the specification refuses *)
+Theorem C01_model_refusal_justified : forall s d st e,
+  Rep s d -> stmt_ok st = true -> strict_stmt st = true ->
+  nextFree (e_store (run_stmt s st)) <= OFFMAX -> e_out (run_stmt s st) = OErr e ->
+  exists e', spec_exec d st = SpecErr e'.
+Proof. exact model_refusal_justified. Qed.
+Print Assumptions C01_model_refusal_justified.
+
+(* agreement with the model (MM) implies acceptance by the oracle (SM) *)
+Theorem C01_agreement_implies_acceptance : forall c,
+  model_agrees c = true ->
+  hist_shape (fst c) = true -> forallb hev_ok (fst c) = true -> forallb hev_stmt_shape (fst c) = true ->
+  frontier_ok init_sys (fst c) = true -> reads_cover [] [] [] (fst c) = true ->
+  spec_accepts c = true.
+Proof. exact agreement_implies_acceptance. Qed.
+Print Assumptions C01_agreement_implies_acceptance.
+
+(* row ids along one acknowledged statement: an id a user table shows afterwards was an id of the
+   same table before, or is above the row-id counter the statement started from *)
+Theorem C01_ids_fresh_or_kept : forall s d st c,
+  Rep s d -> stmt_ok st = true -> nextFree (e_store (run_stmt s st)) <= OFFMAX ->
+  e_out (run_stmt s st) = OOk c ->
+  lastKey s <= lastKey (e_store (run_stmt s st)) /\
+  forall m i, is_sys m = false -> In i (ids (e_store (run_stmt s st)) m) -> In i (ids s m) \/ lastKey s < i.
+Proof. exact run_stmt_idext. Qed.
+Print Assumptions C01_ids_fresh_or_kept.
+
+(* non-vacuity: read-backs before and after a leaf split with a root move (12 rows, 9-cell
+   leaves: the dump shows 5 pages), an UPDATE, a flush, a DELETE, a failing INSERT (INT range), a
+   second table; every hypothesis of both theorems holds and both oracles accept *)
+Definition oracle_row (i : Z) : list value := [VInt i; VStr "r"].
+
+Definition hevs_oracle_demo : list hevent :=
+  [HEv (EvStmt (SCreateTable "t" [mkColDef "a" STNumeric; mkColDef "b" (STVarchar 20)]));
+   HReadTables ["t"; "sys_schema"];
+   HEv (EvStmt (SInsert "t" [] (map oracle_row [1;2;3;4;5;6;7;8;9;10;11;12]%Z)));
+   HReadTables ["t"; "sys_schema"]; HDumpPages;
+   HEv (EvStmt (SUpdate "t" [("b", XLit (VStr "u"))] (Some (EPred (XCol (mkCol "" "a")) CLt (XLit (VInt 4))))));
+   HEv EvFlush;
+   HEv (EvStmt (SDelete "t" (Some (EPred (XCol (mkCol "" "a")) CEq (XLit (VInt 2))))));
+   HEv (EvStmt (SInsert "t" [] [[VInt 2147483648; VStr "x"]]));                          (* fails: INT range *)
+   HEv (EvStmt (SCreateTable "u" [mkColDef "x" STBigInt]));
+   HEv (EvStmt (SInsert "u" [] [[VInt 7]]));
+   HReadTables ["t"; "u"; "sys_schema"]].
+
+Example C01_oracle_demo_hyps :
+  hist_shape hevs_oracle_demo = true /\ forallb hev_ok hevs_oracle_demo = true /\
+  forallb hev_stmt_shape hevs_oracle_demo = true /\ frontier_ok init_sys hevs_oracle_demo = true /\
+  reads_cover [] [] [] hevs_oracle_demo = true /\ forallb strict_hev hevs_oracle_demo = true /\
+  map (fun o => match o with HOut x => Some x | _ => None end) (run_h init_sys hevs_oracle_demo) =
+    [Some OBok; None; Some OBok; None; None; Some OBok; Some OBok; Some OBok; Some (OBerr EIntRange);
+     Some OBok; Some OBok; None] /\
+  map (fun o => match o with HDump _ ps => Some (List.length ps) | _ => None end) (run_h init_sys hevs_oracle_demo) =
+    [None; None; None; None; Some 5%nat; None; None; None; None; None; None; None] /\
+  (match nth 11 (run_h init_sys hevs_oracle_demo) HNone with
+   | HTables (("t", TRows _ rows) :: ("u", TRows _ rows2) :: _) => (map fst rows, map fst rows2)
+   | _ => ([], [])
+   end) = ([12; 14; 15; 16; 17; 18; 19; 20; 21; 22; 23]%N, [26]%N) /\
+  spec_accepts (hevs_oracle_demo, run_h init_sys hevs_oracle_demo) = true /\
+  spec_accepts_strict (hevs_oracle_demo, run_h init_sys hevs_oracle_demo) = true.
+Proof. vm_compute. repeat split; reflexivity. Qed.
+
+(* ====================== the same with crash-restarts in the history ======================
+   hist_shape_c = hist_shape + HEv EvCrash (crash and recovery at a statement boundary). Recovery
+   never fails on such a history and gives back every table with the same rows and the same ids;
+   ids handed out after it are above every id the oracle has seen (Proofs/OracleCrash.v,
+   OracleKeys.v; C02's crash invariant through MovesFromRep.RInv). Same hypotheses. *)
+From Mkdb Require Import Proofs.OracleKeys Proofs.OracleCrash.
+
+Theorem C01_oracle_accepts_model_with_crashes : forall hevs,
+  hist_shape_c hevs = true ->
+  forallb hev_ok hevs = true ->
+  forallb hev_stmt_shape hevs = true ->
+  frontier_ok init_sys hevs = true ->
+  reads_cover [] [] [] hevs = true ->
+  spec_accepts (hevs, run_h init_sys hevs) = true.
+Proof. exact model_passes_oracle_crash. Qed.
+Print Assumptions C01_oracle_accepts_model_with_crashes.
+
+Theorem C01_strict_oracle_accepts_model_with_crashes : forall hevs,
+  hist_shape_c hevs = true ->
+  forallb hev_ok hevs = true ->
+  forallb hev_stmt_shape hevs = true ->
+  frontier_ok init_sys hevs = true ->
+  reads_cover [] [] [] hevs = true ->
+  forallb strict_hev hevs = true ->
+  spec_accepts_strict (hevs, run_h init_sys hevs) = true.
+Proof. exact model_passes_oracle_crash_strict. Qed.
+Print Assumptions C01_strict_oracle_accepts_model_with_crashes.
+
+Theorem C01_agreement_implies_acceptance_with_crashes : forall c,
+  model_agrees c = true ->
+  hist_shape_c (fst c) = true -> forallb hev_ok (fst c) = true -> forallb hev_stmt_shape (fst c) = true ->
+  frontier_ok init_sys (fst c) = true -> reads_cover [] [] [] (fst c) = true ->
+  spec_accepts c = true.
+Proof. exact agreement_implies_acceptance_crash. Qed.
+Print Assumptions C01_agreement_implies_acceptance_with_crashes.
+
+(* a row id that some leaf holds is held by some leaf after every statement *)
+Theorem C01_keys_never_disappear : forall s st k,
+  SInv s -> has_key (forest s) k -> has_key (forest (e_store (run_stmt s st))) k.
+Proof. intros s st k H. exact (run_stmt_keys s st H k). Qed.
+Print Assumptions C01_keys_never_disappear.
+
+(* non-vacuity: a crash while the 12 rows and the root move of t are only in the log, a failing
+   INSERT, a flush followed by a crash, an INSERT and an UPDATE lost from the cache by a third
+   crash and redone from the log; read-backs in between *)
+Definition hevs_oracle_crash : list hevent :=
+  [HEv (EvStmt (SCreateTable "t" [mkColDef "a" STNumeric; mkColDef "b" (STVarchar 20)]));
+   HEv (EvStmt (SInsert "t" [] (map oracle_row [1;2;3;4;5;6;7;8;9;10;11;12]%Z)));
+   HReadTables ["t"; "sys_schema"];
+   HEv EvCrash;
+   HReadTables ["t"; "sys_schema"]; HDumpPages;
+   HEv (EvStmt (SDelete "t" (Some (EPred (XCol (mkCol "" "a")) CEq (XLit (VInt 2))))));
+   HEv (EvStmt (SInsert "t" [] [[VInt 2147483648; VStr "x"]]));                          (* fails: INT range *)
+   HEv EvFlush; HEv EvCrash;
+   HEv (EvStmt (SInsert "t" [] [[VInt 13; VStr "n"]]));
+   HEv (EvStmt (SUpdate "t" [("b", XLit (VStr "u"))] (Some (EPred (XCol (mkCol "" "a")) CLt (XLit (VInt 4))))));
+   HEv EvCrash;
+   HReadTables ["t"; "sys_schema"]].
+
+Example C01_oracle_crash_demo_hyps :
+  hist_shape_c hevs_oracle_crash = true /\ hist_shape hevs_oracle_crash = false /\
+  forallb hev_ok hevs_oracle_crash = true /\ forallb hev_stmt_shape hevs_oracle_crash = true /\
+  frontier_ok init_sys hevs_oracle_crash = true /\ reads_cover [] [] [] hevs_oracle_crash = true /\
+  forallb strict_hev hevs_oracle_crash = true /\
+  map (fun o => match o with HOut x => Some x | _ => None end) (run_h init_sys hevs_oracle_crash) =
+    [Some OBok; Some OBok; None; Some OBok; None; None; Some OBok; Some (OBerr EIntRange); Some OBok;
+     Some OBok; Some OBok; Some OBok; Some OBok; None] /\
+  (match nth 13 (run_h init_sys hevs_oracle_crash) HNone with
+   | HTables ((_, TRows _ rows) :: _) => map fst rows | _ => [] end) =
+    [12; 14; 15; 16; 17; 18; 19; 20; 21; 22; 23; 24]%N /\
+  spec_accepts (hevs_oracle_crash, run_h init_sys hevs_oracle_crash) = true /\
+  spec_accepts_strict (hevs_oracle_crash, run_h init_sys hevs_oracle_crash) = true.
+Proof. vm_compute. repeat split; reflexivity. Qed.
